@@ -41,4 +41,5 @@ func init() {
 	// ---------------- C14.R3.overwrite
 	mut("C14", "the shared close overwrites the cached terminal result", "freighter/go/http/stream.go",
 		"	c.closed = true\n	close(c.normalShutdownSig)", "	c.closed = true\n	c.peerCloseErr = freighter.ErrStreamClosed\n	close(c.normalShutdownSig)", "C14.R3.overwrite")
+
 }
